@@ -202,7 +202,89 @@ func genSet(r *vh.Rng, withCounter bool) declSet {
 		_ = i
 		es = append(es, e)
 	}
+	if !withCounter && r.Chance(1, 2) {
+		es = addTypeCycle(es, r)
+	}
 	return declSet{Ents: es}
+}
+
+// addTypeCycle appends a family of 2..3 mutually recursive struct types (a TYPE cycle is valid Go: dep.Sorter emits a
+// forward declaration, the reflect types of the others contain xreflect.Forward) linked through pointer / slice / map
+// fields, and variables of those types: zero values, keyed and positional composite literals that do and do not set
+// the link field, links to other variables of the family.  Every variable is read back (int field, through the link,
+// link == nil).  Avoided (known finding C16-8): the slice/map link of a ZERO-valued variable is never read.
+func addTypeCycle(es []ent, r *vh.Rng) []ent {
+	m := 2 + r.Intn(2)
+	base := len(es)
+	tname := func(i int) string { return "R" + string(rune('a'+i%m)) }
+	links := make([]string, m)
+	for i := 0; i < m; i++ {
+		links[i] = []string{"*%s", "*%s", "[]*%s", "map[int]*%s", "[]%s"}[r.Intn(5)]
+	}
+	links[r.Intn(m)] = "*%s" // at least one pointer link
+	for i := 0; i < m; i++ {
+		es = append(es, ent{Kind: "type", Name: tname(i), Shape: "cyc", Refs: []int{base + (i+1)%m},
+			Text: fmt.Sprintf("type %s struct { l %s; n int }", tname(i), fmt.Sprintf(links[i], tname(i+1)))})
+	}
+	for i := 0; i < m; i++ {
+		t, tn := tname(i), tname(i+1)
+		k := 1 + r.Intn(90)
+		zero := len(es)
+		// a keyed literal that does not set the link: the variable other literals point to
+		es = append(es, ent{Kind: "var", Name: "L" + t, Init: true, Refs: []int{base + i}, Shape: "cyc", TName: t,
+			Text: fmt.Sprintf("var L%s = %s{n: %d}", t, t, k), Show: "L" + t + ".n"})
+		_ = zero
+		switch r.Intn(3) {
+		case 0:
+			sh := "Z" + t + ".n"
+			if links[i] == "*%s" {
+				sh = "Z" + t + ".l == nil"
+			}
+			es = append(es, ent{Kind: "var", Name: "Z" + t, Refs: []int{base + i}, Shape: "cyc", TName: t,
+				Text: fmt.Sprintf("var Z%s %s", t, t), Show: sh})
+		case 1:
+			// the link field is set: keyed or positional
+			var lit, sh string
+			switch links[i] {
+			case "*%s":
+				lit, sh = fmt.Sprintf("&%s{n: %d}", tn, k+1), ".l.n"
+			case "[]*%s":
+				lit, sh = fmt.Sprintf("[]*%s{{n: %d}, nil}", tn, k+1), ".l[0].n"
+			case "map[int]*%s":
+				lit, sh = fmt.Sprintf("map[int]*%s{3: {n: %d}}", tn, k+1), ".l[3].n"
+			default:
+				lit, sh = fmt.Sprintf("[]%s{{n: %d}, {}}", tn, k+1), ".l[0].n"
+			}
+			txt := fmt.Sprintf("var P%s = %s{l: %s, n: %d}", t, t, lit, k+2)
+			if r.Bool() {
+				txt = fmt.Sprintf("var P%s = %s{%s, %d}", t, t, lit, k+2)
+			}
+			es = append(es, ent{Kind: "var", Name: "P" + t, Init: true, Refs: []int{base + i, base + (i+1)%m}, Shape: "cyc", TName: t,
+				Text: txt, Show: "P" + t + sh + " + P" + t + ".n"})
+		default:
+			if links[i] != "*%s" {
+				break
+			}
+			// link to ANOTHER variable of the family: declared somewhere else in the text (its own index is base+m+...)
+			target := -1
+			for j, e := range es {
+				if e.Kind == "var" && e.Name == "L"+tn {
+					target = j
+				}
+			}
+			txt := fmt.Sprintf("var Q%s = %s{&L%s, %d}", t, t, tn, k+3)
+			refs := []int{base + i}
+			if target < 0 {
+				// L<next> is declared later in this family: forward reference to a variable
+				txt = fmt.Sprintf("var Q%s = &%s{n: %d}", t, t, k+3)
+				es = append(es, ent{Kind: "var", Name: "Q" + t, Init: true, Refs: refs, Shape: "cyc", TName: t, Text: txt, Show: "Q" + t + ".n"})
+				break
+			}
+			es = append(es, ent{Kind: "var", Name: "Q" + t, Init: true, Refs: append(refs, target), Shape: "cyc", TName: t,
+				Text: txt, Show: "Q" + t + ".l.n * 2 + Q" + t + ".n"})
+		}
+	}
+	return es
 }
 
 // genCyclic: a set with an initialisation cycle through variables and a function
@@ -516,6 +598,8 @@ func main() {
 	rng := vh.NewRng(a.Seed)
 	rep := vh.NewReport(a, "random valid sets of 3..10 package-level declarations (const/var/type/func; acyclic references through initialisers, "+
 		"conversions, composite literals, var types, struct fields, array lengths, function bodies with self recursion, function literals; "+
+		"half of the sets without counter also declare 2..3 MUTUALLY RECURSIVE struct types (pointer / []*T / map[int]*T / []T links) with zero-valued variables and variables built by keyed and positional composite literals "+
+		"that set / do not set the link or point to another variable of the family, all read back (the slice/map link of a zero-valued variable is never read: known finding C16-8); "+
 		"1/3 of the sets use a side-effecting counter Next() so that the initialisation order is observable), each evaluated by ONE fast.Interp.Eval "+
 		"in 3 (quick) / 5 (thorough) random textual orders and compiled by go build in the same orders; plus sets with an initialisation cycle "+
 		"(checked against go/types); plus the corpus. Excluded classes (known findings): locals/parameters named like a declaration (#1), "+
@@ -629,6 +713,9 @@ func main() {
 		nrefs := strings.Count(model, "[") // rough: any dependency list
 		rep.Count(v.Src, nrefs > 0)
 		rep.Dist("origin:" + v.Origin)
+		if strings.Contains(v.Src, "type Ra struct") {
+			rep.Dist("set:with-mutually-recursive-struct-types")
+		}
 		switch {
 		case gi.Err == "":
 			rep.Dist("go:accepted")
